@@ -28,6 +28,7 @@ func main() {
 			"distinct = (n, t, fork, op sequence shape); non-trivial = the validator set changed at least once",
 		Assumptions: []string{
 			"check-in quorum = max(threshold, floor(2n/3)+1), sticky once met for a started config (from the statement's 'more than two thirds' clause and the config threshold)",
+			"start rule (from app.go EndBlock/deliverBlockSeen, checked every block against the application's started events): a configuration is started once threshold-many keypers of its predecessor have reported a main chain block >= its activation block, each keyper counting with the highest block it ever reported; a report of block 0 creates no vote",
 			"check-ins that use the placeholder key itself are not generated (parking one's own power is indistinguishable from being offline)",
 			"Tendermint's fold is modelled by refimpl.TMSet (duplicates, removal of absent keys, negative power, empty result are errors)",
 		},
@@ -58,7 +59,9 @@ type cfgModel struct {
 	keypers          []common.Address
 	threshold        uint64
 	index            uint64
+	activation       uint64
 	started, updated bool
+	ruleStarted      bool // started according to the start rule, computed from the delivered block-seen reports
 }
 
 func quorum(c *cfgModel) uint64 {
@@ -111,6 +114,7 @@ func histCase(env *vlib.Env, h int, rep *vlib.Reporter) {
 	}
 	cfgs := []*cfgModel{{keypers: gaddr, threshold: gt, index: 0}}
 	ident := map[common.Address]string{}
+	seenMax := map[common.Address]uint64{}
 	// op script
 	nonce := uint64(10)
 	sign := func(s int, m *shmsg.Message, l string) smchain.Tx {
@@ -154,6 +158,11 @@ func histCase(env *vlib.Env, h int, rep *vlib.Reporter) {
 		for i := 0; i < n; i++ {
 			ops = append(ops, sign(i, shmsg.NewBlockSeen(act2), "seen2"))
 		}
+	}
+	// reports of a lower block after (or before) a higher one: a report never takes a vote back
+	for j := r.Intn(3); j > 0; j-- {
+		i := r.Intn(n)
+		ops = append(ops, sign(i, shmsg.NewBlockSeen(uint64(r.Intn(int(act)+2))), "seenlo"))
 	}
 	// an outsider check-in (must not matter)
 	ops = append(ops, sign(n, shmsg.NewCheckIn(u.ValKeys[n+2], &u.EncKeys[n].PublicKey), "outsider-checkin"))
@@ -202,6 +211,14 @@ func histCase(env *vlib.Env, h int, rep *vlib.Reporter) {
 			if d.Code != 0 {
 				continue
 			}
+			if bs := tx.Msg.GetBlockSeen(); bs != nil {
+				// a keyper's report counts with the highest main chain block it has ever reported
+				if bs.BlockNumber > seenMax[u.Addrs[tx.Signer]] {
+					seenMax[u.Addrs[tx.Signer]] = bs.BlockNumber
+				} else if bs.BlockNumber < seenMax[u.Addrs[tx.Signer]] {
+					rep.Obs("lower_block_seen_after_higher", 1)
+				}
+			}
 			if ci := tx.Msg.GetCheckIn(); ci != nil {
 				if _, had := ident[u.Addrs[tx.Signer]]; had {
 					rep.Obs("key_changes_after_fork", 1)
@@ -211,7 +228,7 @@ func histCase(env *vlib.Env, h int, rep *vlib.Reporter) {
 			for _, ev := range d.Events {
 				if ev.Type == "shutter.batch-config" {
 					bc := tx.Msg.GetBatchConfig()
-					cm := &cfgModel{threshold: bc.Threshold, index: bc.KeyperConfigIndex}
+					cm := &cfgModel{threshold: bc.Threshold, index: bc.KeyperConfigIndex, activation: bc.ActivationBlockNumber}
 					for _, kb := range bc.Keypers {
 						cm.keypers = append(cm.keypers, common.BytesToAddress(kb))
 					}
@@ -231,6 +248,36 @@ func histCase(env *vlib.Env, h int, rep *vlib.Reporter) {
 						}
 					}
 				}
+			}
+		}
+		// the start rule: a configuration starts at the end of the first block at which at least
+		// threshold-many keypers of its predecessor (the genesis configuration: of itself) have
+		// reported a main chain block at or past its activation block
+		for i, c := range cfgs {
+			if !c.ruleStarted {
+				allow := cfgs[0]
+				if i > 0 {
+					allow = cfgs[i-1]
+				}
+				votes := uint64(0)
+				for _, kp := range allow.keypers {
+					if b, ok := seenMax[kp]; ok && b >= c.activation {
+						votes++
+					}
+				}
+				if votes >= allow.threshold {
+					c.ruleStarted = true
+				}
+			}
+			if c.ruleStarted != c.started {
+				rep.Violationf("start-rule", map[string]any{"history": h, "shape": shape, "height": rp.Height, "config": c.index, "started_by_app": c.started, "started_by_rule": c.ruleStarted},
+					"at height %d configuration %d is started=%t in the application, the block-seen reports delivered so far say started=%t", rp.Height, c.index, c.started, c.ruleStarted)
+				return
+			}
+		}
+		for i := 1; i < len(cfgs); i++ {
+			if cfgs[i].started && !cfgs[i-1].started {
+				rep.Obs("blocks_with_a_later_config_started_before_an_earlier_one", 1)
 			}
 		}
 		for _, c := range cfgs {
